@@ -87,12 +87,12 @@ DOMAINS = ["a.com", "*.a.com", "*", "b.org", "*.com"]
 def shards(tier, seed):
     q = tier == "quick"
     plan = [
-        ("exh", 4 if q else 16, 75 if q else 300),
-        ("main", 5 if q else 20, 75 if q else 300),
-        ("quote", 2 if q else 6, 250 if q else 1500),
-        ("nest", 1 if q else 4, 200 if q else 1000),
-        ("urlfor", 2 if q else 6, 20000 if q else 120000),
-        ("norm", 2 if q else 6, 3500 if q else 25000),
+        ("exh", 4 if q else 16, 65 if q else 300),
+        ("main", 5 if q else 20, 85 if q else 400),
+        ("quote", 2 if q else 6, 220 if q else 1000),
+        ("nest", 1 if q else 4, 120 if q else 500),
+        ("urlfor", 2 if q else 6, 13000 if q else 60000),
+        ("norm", 2 if q else 6, 2600 if q else 12000),
     ]
     out = []
     for kind, n, per in plan:
@@ -949,8 +949,8 @@ def run_shard(spec, rec):
 
     def run(coro):
         # applications and requests are cyclic garbage: collect regularly to keep the shard's memory flat
-        n_run[0] += 1
-        if n_run[0] % 20 == 0:
+        if rec.evaluations - n_run[0] >= 20000:
+            n_run[0] = rec.evaluations
             gc.collect()
         return _run(coro)
 
